@@ -1,5 +1,6 @@
 import GoSQLXModel.Model.Loops
 import GoSQLXModel.Model.Batch
+import GoSQLXModel.Proofs.BatchSpec
 /-!
 # C07 — All parsing and validation entry points agree
 
@@ -16,7 +17,10 @@ oracle (every token list, every behaviour of parseStatement that never moves bac
   all copies and the correspondence run compares the real entry points in strict mode too);
 * `recovery_no_error_of_parse_ok`, `recovery_error_of_parse_err` — recovery reports no error exactly when
   strict parsing succeeds (inputs whose failure lies inside the token stream);
-* `Batch.batch_ok_iff`, `Batch.batch_err_first` — batch = map with first-failure.
+* `Batch.batch_ok_iff`, `Batch.batch_err_first` — batch = map with first-failure; `batch_is_spec`,
+  `batch_fails_iff_first_failure`, `batch_all_ok`, `batch_of_concatenation` (Proofs/BatchSpec.lean) — the loop with
+  running index and accumulator equals the written-down specification, fails *exactly* when some call fails (at the
+  first such index, with that call's error), and splits over concatenated lists.
 The wrappers (Validate → Parse, ParseBytes → Parse, ParseWithTimeout → ParseWithContext, gosqlx.* → parser.*)
 delegate; that they add only `%w` layers is C13's `gen_gosqlx_wraps`, and their agreement on real inputs
 is decided by the differential run over all pairs of entry points.
@@ -38,6 +42,26 @@ theorem recovery_iff_parse_ok (I : Input) (f : Nat) (l : List Nat) (h : parseLoo
 theorem recovery_iff_parse_fails (I : Input) (f c p : Nat) (h : parseLoop I false f 0 [] = some (.err c p))
     (hm : more I p = true) (f' : Nat) (r) (hr : recLoop I f' 0 [] [] = some r) : r.2 ≠ [] :=
   recovery_error_of_parse_err I f c p h hm f' r hr
+
+theorem batch_is_spec {α β ε : Type} (f : α → Except ε β) (qs : List α) : Batch.batch f 0 qs [] = Batch.spec f qs :=
+  Batch.batch_zero f qs
+
+theorem batch_fails_iff_first_failure {α β ε : Type} (f : α → Except ε β) (qs : List α) (k : Nat) (e : ε) :
+    Batch.batch f 0 qs [] = .error (k, e) ↔
+      ∃ pre q post, qs = pre ++ q :: post ∧ pre.length = k ∧ f q = .error e ∧ ∀ p ∈ pre, ∃ r, f p = .ok r :=
+  Batch.batch_err_iff f qs k e
+
+theorem batch_all_ok {α β ε : Type} (f : α → Except ε β) (qs : List α) (h : ∀ q ∈ qs, ∃ r, f q = .ok r) :
+    ∃ rs, Batch.batch f 0 qs [] = .ok rs ∧ qs.map f = rs.map Except.ok := Batch.batch_ok_of_all f qs h
+
+theorem batch_of_concatenation {α β ε : Type} (f : α → Except ε β) (xs ys : List α) :
+    Batch.batch f 0 (xs ++ ys) [] = match Batch.batch f 0 xs [] with
+      | .ok rs => Batch.batch f xs.length ys rs
+      | .error ke => .error ke := Batch.batch_append f xs ys
+
+/-- non-vacuity: the third of four calls fails; the fourth (which would fail too) is not reported -/
+example : Batch.batch (fun n : Nat => if n % 2 = 0 then Except.ok (n / 2) else Except.error n) 0 [2, 4, 5, 7] []
+    = (.error (2, 5) : Except (Nat × Nat) (List Nat)) := by rfl
 
 /-- validate-only entry points: the verdict of Parse with the tree discarded -/
 def validate (I : Input) (strict : Bool) (f : Nat) : Option (Option (Nat × Nat)) :=
